@@ -13,6 +13,7 @@ pub mod c07;
 pub mod c08;
 pub mod c09;
 pub mod c10;
+pub mod c11;
 pub mod c13;
 pub mod c14;
 pub mod c16;
@@ -30,6 +31,8 @@ pub struct PropDef {
 	pub replay: fn(&Ctx, &Path) -> Result<(), Failure>,
 	pub shards: fn(&str) -> u64,
 	pub watchdog_s: fn(&str) -> u64,
+	/// which binaries run shards: 0 = this harness, 1 = the shuttle binary (pdbs), 2 = both
+	pub engine: u8,
 }
 
 pub fn default_shards(_tier: &str) -> u64 {
@@ -44,8 +47,17 @@ pub fn default_watchdog(tier: &str) -> u64 {
 	}
 }
 
+/// Properties decided (partly) by the shuttle flavour; their shard work is done by `pdbs`.
+pub fn shuttle_def(id: &'static str, rule: &'static str, assumptions: &'static [&'static str]) -> PropDef {
+	fn nop(_: &Ctx) {}
+	fn norep(_: &Ctx, _: &Path) -> Result<(), Failure> {
+		Err(Failure::new("bad-replay", "replay files of this property are handled by the shuttle binary"))
+	}
+	PropDef { id, level: "exploration", rule, assumptions, run: nop, replay: norep, shards: default_shards, watchdog_s: default_watchdog, engine: 1 }
+}
+
 pub fn all() -> Vec<PropDef> {
-	vec![c01::def(), c02::def(), c03::def(), c04::def(), c06::def(), c07::def(), c08::def(), c09::def(), c10::def(), c13::def(), c14::def(), c16::def(), c17::def(), c18::def(), c19::def(), c20::def()]
+	vec![c01::def(), c02::def(), c03::def(), c04::def(), c06::def(), c07::def(), c08::def(), c09::def(), c10::def(), c11::def(), c13::def(), c14::def(), c16::def(), c17::def(), c18::def(), c19::def(), c20::def(), c05_def(), c15_def()]
 }
 
 #[derive(Clone, Debug, Deserialize)]
@@ -71,4 +83,27 @@ pub fn load_known(root: &Path) -> Vec<KnownFinding> {
 pub fn scaled(ctx: &Ctx, quick_total: u64, thorough_total: u64) -> u32 {
 	let total = if ctx.tier == "thorough" { thorough_total } else { quick_total };
 	((total + ctx.shards - 1) / ctx.shards).max(1) as u32
+}
+
+pub fn c05_def() -> PropDef {
+	shuttle_def(
+		"C05",
+		"generated workloads (1-2 committing threads with disjoint key sets, each a script of transactions writing 2-4 keys with version-tagged values whose length class changes size tiers incl. multipart; 1-3 reader threads with scripts of point reads; hash or btree column; optionally identity-hashed keys crowded into one index page so that the index grows while readers run) x pipeline driven by the four REAL worker loops (verif_run_worker, throttles active) or by one stage thread with a generated step order x seeded shuttle schedules (random + PCT depth 3) at lock/condvar granularity. Oracle per read of key k of writer w: lo = completed[w] sampled before, hi = started[w] sampled after (harness atomics); the returned version t must satisfy last_write(k,<=lo) <= t <= last_write(k,<=hi), the bytes must be exactly what transaction t wrote (no torn value), and per reader every later read of a key written by a transaction <= the highest one observed must return that write or a later one (atomic, monotonic). After the threads finish: clean close, reopen, every key holds its last write. Non-trivial = an execution in which >=1 read was served while the pipeline was non-idle (commits queued, bytes logged-not-applied or log files awaiting enactment); evaluations = schedule executions; distinct = each execution has its own (workload, schedule) pair - counted as executions in which the non-trivial condition was observed",
+		&[
+			"schedules are controlled at the granularity of the crate's lock / condvar operations (feature loom mapped onto shuttle); data races on memory-mapped bytes without a lock in between are outside what this engine can schedule",
+			"the library is built with feature loom (Vec buffers instead of arrays, value_ref copies)",
+			"ordering knowledge comes only from harness atomics; writers have disjoint key sets so per-key order is known",
+		],
+	)
+}
+
+pub fn c15_def() -> PropDef {
+	shuttle_def(
+		"C15",
+		"generated client scripts (1-3 clients; transactions from empty to 1 MiB values, bursts whose queued bytes exceed the 16 MiB commit-queue limit; always_flush on/off; optional index growth) against the four REAL worker loops with the queue-full throttles active, x generated moment of shutdown, x seeded shuttle schedules (random + PCT). Oracle: no execution ends in a deadlock (all threads blocked - reported by shuttle); every commit call returns; after the clients finish the main thread only polls the pipeline counters (yield) and the queue must become empty - and with always_flush the logged-but-unapplied byte count must reach 0 - within a bounded number of scheduler steps without any further call; shutdown + joining the four workers + drop terminate; reopen shows every committed transaction. Non-trivial = an execution in which some commit was throttled or some worker had to be woken (queue or log-queue non-empty when sampled); evaluations = schedule executions",
+		&[
+			"bounded liveness: 'eventually' is replaced by 'within L scheduler steps while only the observer spins'; sound as a violation criterion, cannot prove termination for unexplored schedules",
+			"production configuration is always_flush=false; always_flush=true executions are labelled separately",
+		],
+	)
 }
